@@ -52,7 +52,7 @@ inductive Action where
   | pageUp | pageDown | halfPageUp | halfPageDown
   | select | deselect | toggle | toggleUp | toggleDown | toggleIn | toggleOut
   | selectAll | deselectAll | toggleAll | clearSelection
-  | toggleSort | exclude | excludeMulti
+  | toggleSort | exclude | excludeMulti | reload
   | toggleInput | showInput | hideInput
   | accept | acceptNonEmpty | acceptOrPrintQuery | abort | printQuery
   | print (s : Str)
@@ -242,6 +242,9 @@ def act (op : Opts) (s : TS) : Action → TS
     else s
   | .clearSelection => if op.multi > 0 then { s with selected := [] } else s
   | .toggleSort => { s with sort := !s.sort }
+  -- reload (of the same input): the new list is a new generation of items — the selection and the
+  -- exclusions are dropped, the query and the cursor position stay
+  | .reload => { s with selected := [], excluded := [] }
   | .exclude =>
     match currentItem s with
     | some i => { deselectItem s i with excluded := i :: s.excluded }
